@@ -10,7 +10,7 @@ use crate::rng::Rng;
 /// Separator-rich atoms used in every component position.
 pub const ATOMS: &[&str] = &[
     "a", "A", "b", "Z", "x1", "1", "0", "-", ".", "..", "_", "+", " ", "%", "%41", "%2F", "%2f",
-    "%2e", "@", "?", "#", "&", "=", ":", ",", "/", "//", "\\", "\"", "<", ">", "`", "{", "}", "|",
+    "%2e", "...", "....", "@", "?", "#", "&", "=", ":", ",", "/", "//", "\\", "\"", "<", ">", "`", "{", "}", "|",
     "^", "[", "]", "~", "!", "$", "'", "(", ")", "*", ";", "é", "É", "ß", "ǅ", "İ", "日本", "😀",
     "\u{7f}", "\n", "\t", "\0", "\u{1b}", "\u{80}", "\u{a0}", "\u{2028}", "\u{feff}", "pkg:", "lib",
     "core", "v1.2.3", "1.0.0-rc.1+build", "sha1:00",
@@ -178,7 +178,7 @@ pub fn components(rng: &mut Rng, known_bias: bool) -> Components {
 
 /// Text of a checksum qualifier; well-formed (possibly non-canonical) or malformed.
 pub fn checksum_text(rng: &mut Rng, well_formed: bool) -> String {
-    const ALGS: &[&str] = &["sha1", "SHA256", "md5", "Sha512", "blake2b", "a:b", "x-1", "é"];
+    const ALGS: &[&str] = &["sha1", "SHA256", "md5", "Sha512", "blake2b", "a:b", "x-1", "é", "XÉ", "GOST-Э", "éB", "a=b"];
     if well_formed {
         let n = rng.range(1, 3);
         let mut algs: Vec<&str> = Vec::new();
